@@ -79,6 +79,37 @@ def task_C02(tier, seed, arg):
                             "(atoms, mass or charge wrong)" % (nat.atom_name(a), nat.atom_name(b)),
                             {"element": el, "isotope": iso, "charge": q, "how": how},
                             {"atoms": _atoms_names(f.atoms), "mass": f.mass, "charge": f.charge}, {"atoms": _atoms_names(exp), "mass": m, "charge": 2 * q})
+    # ions of a private table with customised masses: whichever table asked for an ion first, each table's ion weighs ITS atom
+    from periodictable import core, mass as _mass
+    name = "stateful_c02_%d" % random.Random(seed).randrange(10 ** 9)
+    T = core.PeriodicTable(name)
+    try:
+        _mass.init(T)
+        T.Fe._mass = 50.0
+        T.Cu._mass = 60.0
+        T.O._mass = 15.0
+        pt.Fe.ion[2]                      # public first for Fe{2+}
+        T.Cu.ion[1]                       # private first for Cu{+}
+        for tab, label in ((T, "private"), (pt.elements, "public")):
+            for el, q in (("Fe", 2), ("Cu", 1), ("O", -2)):
+                E = getattr(tab, el)
+                ion = E.ion[q]
+                R.ok(2, ("ion-of-table", label, el))
+                base = ion.element
+                if base is not E or getattr(base, "table", None) != E.table:
+                    R.violation("C02:ion_of_other_table:%s:%s" % (label, el), "the %s table's %s.ion[%d] is an ion of another table's atom" % (label, el, q),
+                                {"table": label, "element": el, "charge": q}, getattr(base, "table", None), E.table)
+                if not close(ion.mass, E.mass - q * K, 1e-12):
+                    R.violation("C02:ion_mass_of_other_table:%s:%s" % (label, el), "an ion must weigh its own atom less charge electron masses (tables with different masses)",
+                                {"table": label, "element": el, "charge": q}, ion.mass, E.mass - q * K)
+            f = formula("Fe{2+}O{2-}", table=tab) if label == "private" else formula("Fe{2+}O{2-}")
+            want = (tab.Fe.mass - 2 * K) + (tab.O.mass + 2 * K)
+            R.ok(1, ("ion-formula", label))
+            if not close(f.mass, want, 1e-12):
+                R.violation("C02:ion_formula_mass:%s" % label, "mass of Fe{2+}O{2-} on the %s table is not the sum of that table's ion masses" % label,
+                            {"table": label}, f.mass, want)
+    finally:
+        core.PRIVATE_TABLES.pop(name, None)
     return R.done()
 
 
@@ -414,6 +445,20 @@ def task_C17(tier, seed, arg):
                 R.violation("C17:tiny_is_not_zero", "weights x %g at density %g: the calculator differs from the direct calculation "
                             "(a tiny amount is not 'zero total weight')" % (scale, rho), {"scale": scale, "density": rho},
                             [float(x) for x in got], [float(x) for x in exp])
+    # the same material OBJECT listed several times (and equal but distinct objects): weights add
+    water, heavy, gd = formula("H2O"), formula("D2O"), formula("Gd2O3")
+    for mats3, w3 in (([water, heavy, water], [3.0, 1.0, 2.0]), ([water, water, heavy, water], [1.0, 2.0, 0.5, 4.0]),
+                      ([gd, water, gd], [0.2, 5.0, 0.7]), ([water, formula("H2O"), heavy], [3.0, 2.0, 1.0])):
+        for lam in (1.8, np.array([1.0, 4.0])):
+            R.ok(1, ("repeated-object", len(mats3), np.ndim(lam)))
+            got = nsf.neutron_composite_sld(mats3, wavelength=lam)(np.array(w3), density=1.1)
+            total = formula()
+            for wi, m in zip(w3, mats3):
+                total = total + wi * m
+            exp = nsf.neutron_sld(total, density=1.1, wavelength=lam)
+            if not all(np.allclose(np.asarray(g, dtype=float), np.asarray(e, dtype=float), rtol=1e-9, atol=0) for g, e in zip(got, exp)):
+                R.violation("C17:repeated_material_object", "a material listed more than once (the same object) must count with the sum of its weights",
+                            {"materials": [str(m) for m in mats3], "weights": w3}, [np.asarray(g).tolist() for g in got], [np.asarray(e).tolist() for e in exp])
     # a scalar wavelength is a scalar whatever its numeric type (python int, numpy integer / float32 / float64 scalars)
     mats2 = [formula("H2O"), formula("Gd2O3"), formula("SiO2")]
     w2 = np.array([1.0, 0.25, 2.0])
@@ -491,6 +536,15 @@ def task_C08(tier, seed, arg):
             if new not in el.isotopes or [i.isotope for i in el] != sorted(el.isotopes):
                 R.violation("C08:stale_isotope_list:iteration:%s" % label, ".isotopes / iteration do not show the added isotope", label)
             del el._isotopes[new]
+        # exporting a table into a namespace (the mechanism behind `from periodictable import Fe`) rebinds every name
+        ns = {"_mine": "caller's"}
+        for tab, label in ((pt.elements, "public"), (T, "private"), (pt.elements, "public again")):
+            names = core.define_elements(tab, ns)
+            R.ok(1, ("define_elements", label))
+            wrong = [k for k in names if ns.get(k) is not (getattr(tab, k, None) if hasattr(tab, k) else tab.name(k))]
+            if wrong or ns.get("_mine") != "caller's":
+                R.violation("C08:define_elements:%s" % label.replace(" ", "_"), "after define_elements(%s table, ns) %d exported names are not bound to that "
+                            "table's atoms (a namespace that already held another table's names)" % (label, len(wrong)), {"table": label}, wrong[:6])
         T.isotope("2-H") if 2 in T.H.isotopes else None
         mass.init(T)
         R.ok(1)
@@ -534,7 +588,11 @@ def _entrywise(R, key, what, fn, arg, rtol=1e-12):
     import numpy as np
     a = np.asarray(arg)
     snapshot = a.copy()
-    got = fn(arg)
+    try:
+        got = fn(arg)
+    except Exception as e:      # the call under test failed: that is a finding about the code, not a reason to stop the task
+        R.violation(key + ":exception", what + ": raised %s: %s" % (type(e).__name__, str(e)[:200]), {"argument": snapshot.tolist(), "dtype": str(a.dtype)})
+        return
     got = got if isinstance(got, tuple) else (got,)
     bad = None
     if isinstance(arg, np.ndarray) and not np.array_equal(arg, snapshot):
@@ -548,7 +606,11 @@ def _entrywise(R, key, what, fn, arg, rtol=1e-12):
             break
     if bad is None:
         for idx in np.ndindex(a.shape):
-            ref = fn(float(a[idx]))
+            try:
+                ref = fn(float(a[idx]))
+            except Exception as e:
+                bad = "the scalar call at %r raised %s: %s" % (float(a[idx]), type(e).__name__, str(e)[:120])
+                break
             ref = ref if isinstance(ref, tuple) else (ref,)
             for g, r in zip(got, ref):
                 gv, rv = complex(np.asarray(g)[idx]), complex(np.asarray(r))
@@ -691,6 +753,52 @@ def task_C20(tier, seed, arg):
             R.ok(1, (nat.atom_name(atom), tname, "f0"))
             _entrywise(R, "C20:argument_type:f0:%s" % tname, "%s.xray.f0(<%s>)" % (nat.atom_name(atom), tname), lambda q: atom.xray.f0(q), val,
                        1e-5 if "float32" in tname else 1e-12)
+    return R.done()
+
+
+def task_C06(tier, seed, arg):
+    """a private table serves the embedded masses / abundances / densities whatever else was initialised on it first"""
+    import importlib
+    import periodictable as pt
+    from periodictable import core
+    R = Result("fresh private tables on which ONE other data module was initialised before mass and density (every module whose init "
+               "does not need them: covalent_radius, crystal_structure, magnetic_ff, xsf, xsf spectral lines): all element masses and "
+               "densities, all isotope masses and abundances equal the public table's", False)
+    first = [("covalent_radius", "init"), ("crystal_structure", "init"), ("magnetic_ff", "init"), ("xsf", "init"), ("xsf", "init_spectral_lines"), (None, None)]
+    for k, (modname, fn) in enumerate(first):
+        name = "stateful_c06_%d_%d" % (random.Random(seed).randrange(10 ** 9), k)
+        T = core.PeriodicTable(name)
+        label = "%s.%s first" % (modname, fn) if modname else "standard order"
+        try:
+            try:
+                if modname:
+                    getattr(importlib.import_module("periodictable." + modname), fn)(T)
+                importlib.import_module("periodictable.mass").init(T)
+                importlib.import_module("periodictable.density").init(T)
+            except Exception as e:
+                R.violation("C06:init_order:%s:exception" % label, "initialising a private table (%s) raised %s: %s" % (label, type(e).__name__, e), {"order": label})
+                continue
+            nbad = 0
+            for el in pt.elements:
+                tel = T[el.number]
+                R.ok(1, (label, "element"))
+                try:
+                    same = close(tel.mass, el.mass, 0.0) and (tel.density == el.density or close(tel.density, el.density, 0.0)) \
+                        and sorted(tel.isotopes) == sorted(el.isotopes)
+                    if same:
+                        for A in el.isotopes:
+                            if not (close(tel[A].mass, el[A].mass, 0.0) and close(tel[A].abundance, el[A].abundance, 0.0)):
+                                same = False
+                                break
+                except Exception as e:
+                    same = False
+                if not same:
+                    nbad += 1
+                    if nbad <= 2:
+                        R.violation("C06:init_order:%s:%s" % (label, el.symbol), "private table (%s): mass / density / isotopes of %s are not the embedded "
+                                    "values served by the public table" % (label, el.symbol), {"order": label, "element": el.symbol})
+        finally:
+            core.PRIVATE_TABLES.pop(name, None)
     return R.done()
 
 
